@@ -305,6 +305,59 @@ def run(ck: Check):
             r, _ = d.update(value=v)
             outs.append(None if r is None else float(r.statistic))
         iks.append((w, ref, stream, outs))
+    # (own generator: independent of the draws above)
+    import random as _random
+    from frouros.detectors.data_drift import KSTest as _KSTest
+    from scipy.stats import ks_2samp as _ks2
+
+    prng = _random.Random(111111)
+    # an option passed to ONE compare() must not outlive that call (same instance, and a new instance afterwards)
+    for kw in ({"alternative": "less"}, {"alternative": "greater"}, {"method": "asymp"}):
+        ref = np.array([prng.gauss(0, 1) for _ in range(10)])
+        test = np.array([prng.gauss(0.9, 1.4) for _ in range(8)])
+        try:
+            det = _KSTest()
+            det.fit(X=ref)
+            r0 = det.compare(X=test)[0]
+            det.compare(X=test, **kw)
+            r1 = det.compare(X=test)[0]
+            det2 = _KSTest()
+            det2.fit(X=ref)
+            r2 = det2.compare(X=test)[0]
+        except Exception as e:  # noqa: BLE001
+            ck.violation(dict(clause="raises", detector="KSTest", scenario="option-then-default"), dict(option=kw, error=repr(e), ref=ref.tolist(), test=test.tolist()))
+            continue
+        exp = _ks2(ref, test)
+        ck.case(dict(kind="option-then-default", option=kw), nontrivial=True, key=repr(("sticky", kw)))
+        ck.count("option_then_default_cases")
+        tri = [(float(r.statistic), float(r.p_value)) for r in (r0, r1, r2)]
+        if not (tri[0] == tri[1] == tri[2] == (float(exp.statistic), float(exp.pvalue))):
+            ck.violation(dict(clause="batch-ks", cause="option-outlives-call"), dict(what="after one compare() with an option, a compare() without options is no longer the default two-sample KS test", option=kw, default_before=tri[0], default_after_same_instance=tri[1], default_new_instance=tri[2], scipy_default=(float(exp.statistic), float(exp.pvalue)), ref=ref.tolist(), test=test.tolist()))
+    # IncrementalKSTest: the reference carried by an integer / single-precision array, the stream in binary64: the
+    # statistic is that of the VALUES (the window must not inherit the reference's dtype)
+    for dt in (np.int64, np.int32, np.float32, np.uint8):
+        w = prng.choice([3, 4, 6])
+        ref = np.array([prng.randrange(0, 9) for _ in range(prng.choice([5, 6, 9]))]).astype(dt)
+        stream = [prng.choice([prng.uniform(0, 9), prng.randrange(0, 9) + 0.5, float(prng.randrange(0, 9))]) for _ in range(w + 6)]
+        try:
+            d = IncrementalKSTest(window_size=w)
+            d.fit(X=ref)
+            bad = None
+            for t, v in enumerate(stream, 1):
+                r, _ = d.update(value=v)
+                if t < w:
+                    continue
+                e = _ks2([float(x) for x in ref.tolist()], stream[t - w : t], method="exact")
+                if r is None or not close(float(r.statistic), float(e.statistic), 1e-12, 1e-12):
+                    bad = dict(step=t, got=None if r is None else float(r.statistic), expected=float(e.statistic))
+                    break
+        except Exception as e:  # noqa: BLE001
+            ck.violation(dict(clause="raises", detector="IncrementalKSTest", scenario="typed-reference"), dict(dtype=dt.__name__, error=repr(e), reference=ref.tolist(), stream=stream))
+            continue
+        ck.case(dict(kind="typed-reference", dtype=dt.__name__, window_size=w), nontrivial=True, key=repr(("typed-ref", dt.__name__, ref.tolist(), stream)))
+        ck.count("typed_reference_cases")
+        if bad:
+            ck.violation(dict(clause="incremental-equals-batch", regime="typed-reference", dtype=dt.__name__), dict(what="the incremental statistic differs from the batch KS statistic of (reference, last window_size values) when the reference array is not binary64", dtype=dt.__name__, window_size=w, reference=ref.tolist(), stream=stream, **bad))
     exprs = [
         "(fix go (s : iks_st FloatA) (vs : list float) : list (option Z) := match vs with [] => [] | v :: r => match iks_update s v with "
         "Ok (s', o) => option_map fst o :: go s' r | Raise _ => [] end end) "
